@@ -286,13 +286,14 @@ PROPS["C11"] = dict(
     verus=["c11_lists", "c11_pattern_block", "c03_option_text"],
     labels=["C11.", "C03.option_text.safety"],
     kani=[],
-    trusted=["NetworkFilter::parse: the pattern / anchor / hostname extraction block (every string slice of it) and the option-name table are under contract (units c11_pattern_block, c03_option_text, c03_apply_options, c03_parse_mask); the hostname normalisation (to_lowercase / idna), parse_hosts_style and CosmeticFilter::parse bodies are NOT: uninterpreted results",
+    witness=["c11_hosts.rs"],
+    trusted=["NetworkFilter::parse: the pattern / anchor / hostname extraction block (every string slice of it) and the option-name table are under contract (units c11_pattern_block, c03_option_text, c03_apply_options, c03_parse_mask); the hostname normalisation and parse_hosts_style are under contract in c11_pattern_block with to_lowercase, trim_start_matches(\"www.\"), idna and the INVALID_CHARS regex uninterpreted; CosmeticFilter::parse is NOT: uninterpreted result",
              "str::trim, split_whitespace, lines (R5/R6 shims)", "memchr / memrchr (shims)", "UTF-8 facts: an ASCII byte has a character boundary on both sides; both ends of a string are boundaries; ASCII text is encoded byte for character",
              "per-line error isolation in parse_filters_with_metadata (map/filter_map closure pipeline) is not under contract"],
     assumptions=[],
     level_text="Verus proves for ALL UTF-8 strings that AbstractNetworkFilter::parse (offset arithmetic around '@@', '$', '|', '||') and the metadata cut-off loop never slice out of bounds or off a character boundary and terminate; "
                "that parse_filter routes each line to the parser its detected kind and the format name, returns exactly that parser's rule, never yields a rule of the excluded kind, and that hosts lines only yield parse_hosts_style rules; "
-               "the unreachable!() arm of the hosts branch is proved unreachable; and that the pattern block of NetworkFilter::parse (hostname cut, '*' trimming, scheme detection) takes no slice out of bounds or off a character boundary and overflows no index, for every pattern string",
+               "the unreachable!() arm of the hosts branch is proved unreachable; that parse_hosts_style refuses what is not a plain dotted hostname and otherwise parses `||` + the SAME normal form of the host that a `||` rule gets + `^` (no slice off a boundary for any text); and that the pattern block of NetworkFilter::parse (hostname cut, '*' trimming, scheme detection) takes no slice out of bounds or off a character boundary and overflows no index, for every pattern string",
     level_note="the big per-kind parsers are uninterpreted; line independence of the list-level pipeline is not decided",
     design_ref="DESIGN.md section 4, C11",
 )
